@@ -8,6 +8,7 @@ package vlive
 import (
 	"context"
 	"crypto/sha256"
+	"encoding/binary"
 	"fmt"
 	"net"
 	"os"
@@ -98,6 +99,8 @@ type Live struct {
 	mu    sync.Mutex
 	bad   atomic.Int64
 	succ  map[hotstuff.ID]map[cmdKey]map[*clientpb.Command]int64 // replica -> command -> client call -> stamp of the success reply
+	log    *vk.SignLog
+	blocks map[hotstuff.Hash]*hotstuff.Block // every proposed block seen by any replica
 	done  atomic.Int64                        // commands completed (quorum of replies)
 	crashed atomic.Int64
 }
@@ -155,6 +158,14 @@ func (l *Live) attach(nd *node) {
 		}
 		l.mu.Lock()
 		nd.execs = append(nd.execs, rec)
+		l.mu.Unlock()
+	}, eventloop.Prioritize())
+	eventloop.Register(nd.el, func(ev hotstuff.ProposeMsg) {
+		if ev.Block == nil {
+			return
+		}
+		l.mu.Lock()
+		l.blocks[ev.Block.Hash()] = ev.Block
 		l.mu.Unlock()
 	}, eventloop.Prioritize())
 	eventloop.Register(nd.el, func(ev hotstuff.ViewChangeEvent) {
@@ -217,8 +228,8 @@ func (q *qspec) ExecCommandQF(in *clientpb.Command, replies map[uint32]*emptypb.
 // Run executes one live cluster and judges it.
 func Run(o Opts, r *vbase.Result) {
 	logging.SetLogLevel("error")
-	l := &Live{O: o, R: r, succ: map[hotstuff.ID]map[cmdKey]map[*clientpb.Command]int64{}}
 	log := vk.NewSignLog()
+	l := &Live{O: o, R: r, succ: map[hotstuff.ID]map[cmdKey]map[*clientpb.Command]int64{}, log: log, blocks: map[hotstuff.Hash]*hotstuff.Block{}}
 	var infosR, infosC []hotstuff.ReplicaInfo
 	for i := 1; i <= o.N; i++ {
 		id := hotstuff.ID(i)
@@ -487,6 +498,7 @@ func (l *Live) judge(capHit bool) {
 			r.Obs("live_success_replies_checked", 1)
 		}
 	}
+	l.judgeVotes()
 	// equal counts => equal digests
 	type cd struct {
 		id   hotstuff.ID
@@ -515,5 +527,75 @@ func (l *Live) judge(capHit bool) {
 	}
 	if r.WantSample() {
 		r.Sample(map[string]any{"opts": l.O.String(), "commits_max": maxCommits, "commands_completed": l.done.Load(), "replicas_committed": committedBy})
+	}
+}
+
+// judgeVotes is an offline pass over the sign log of every honest key in signing order (C03): vote views strictly
+// increase, no vote at or below a view the replica signed a timeout for, and - for the stateless rotations - the
+// voted block was proposed by the designated leader of its view. (Fast-HotStuff is not run live, so a key signs
+// only view numbers - 8 bytes - and block bytes.)
+func (l *Live) judgeVotes() {
+	for _, nd := range l.nodes {
+		if nd.honest {
+			l.blocks[hotstuff.GetGenesis().Hash()] = hotstuff.GetGenesis()
+			for _, b := range nd.commits {
+				l.blocks[b.Hash()] = b
+			}
+		}
+	}
+	var leaderOf func(hotstuff.View) hotstuff.ID
+	switch l.O.Leader {
+	case leaderrotation.NameRoundRobin:
+		cfg := core.NewRuntimeConfig(1, nil)
+		for i := 1; i <= l.O.N; i++ {
+			cfg.AddReplica(&hotstuff.ReplicaInfo{ID: hotstuff.ID(i)})
+		}
+		rr := leaderrotation.NewRoundRobin(cfg)
+		leaderOf = rr.GetLeader
+	case leaderrotation.NameFixed:
+		leaderOf = func(hotstuff.View) hotstuff.ID { return 1 }
+	}
+	type track struct {
+		lastVote, maxTimeout hotstuff.View
+		voted, timedOut      bool
+	}
+	st := map[hotstuff.ID]*track{}
+	for _, e := range l.log.Since(0) {
+		nd := l.nodes[e.Signer-1]
+		if !nd.honest {
+			continue
+		}
+		t := st[e.Signer]
+		if t == nil {
+			t = &track{}
+			st[e.Signer] = t
+		}
+		if len(e.Msg) == 8 {
+			v := hotstuff.View(binary.LittleEndian.Uint64(e.Msg))
+			if !t.timedOut || v > t.maxTimeout {
+				t.maxTimeout, t.timedOut = v, true
+			}
+			l.R.Obs("live_timeout_signatures", 1)
+			continue
+		}
+		b, ok := l.blocks[hotstuff.Hash(e.Hash)]
+		if !ok {
+			l.R.Obs("live_signatures_unclassified", 1)
+			continue
+		}
+		l.R.Obs("live_vote_signatures", 1)
+		if t.voted && b.View() <= t.lastVote {
+			l.violate("C03", "vote-view-not-increasing", "r%d signed a vote for a block of view %d after having voted in view %d", e.Signer, b.View(), t.lastVote)
+		}
+		if t.timedOut && b.View() <= t.maxTimeout {
+			l.violate("C03", "vote-after-timeout", "r%d signed a vote for view %d after having signed a timeout for view %d", e.Signer, b.View(), t.maxTimeout)
+		}
+		t.lastVote, t.voted = b.View(), true
+		if leaderOf != nil && b.Proposer() != leaderOf(b.View()) {
+			l.violate("C03", "vote-non-leader", "r%d voted for a block of view %d proposed by %d, the designated leader of that view is %d", e.Signer, b.View(), b.Proposer(), leaderOf(b.View()))
+		}
+		if b.Parent() != b.QuorumCert().BlockHash() {
+			l.violate("C03", "vote-parent-not-certified", "r%d voted for a block of view %d whose parent is not the block its QC certifies", e.Signer, b.View())
+		}
 	}
 }
